@@ -132,6 +132,12 @@ class TmpFileAssignmentPrinter(AbstractAssignmentPrinter):
         self.dumper = open(self.output_file_name, "wb")
 
     def __del__(self):
+        self.close()
+
+    def close(self):
+        # writes the stream terminator and closes the file; safe to call more than once
+        if self.dumper.closed:
+            return
         write_short_int(SHORT_TERMINATION_INT, self.dumper)
         self.dumper.close()
 
